@@ -550,9 +550,13 @@ def _feed_ctx(res: C.Result, deep: bool, extra=()):
     meta = {}
     for i, evs in enumerate(hs):
         cid = f"x{i}"
-        blk = VC.run_ctx(cid, evs)
+        info: Dict[str, Any] = {}
+        blk = VC.run_ctx(cid, evs, info)
         lines += blk
         meta[cid] = (evs, blk)
+        for t in info.get("manager_raised", [])[:1]:
+            # the model's context manager never raises by itself
+            res.corr_diffs.append({"name": "corr:M4/disable_message_validation", "diff": t, "case": {"ctx": evs, "protocol": blk}})
     out = C.parse_driver(C.run_driver("validators", lines))
     res.extra["ctx_histories"] = len(hs)
     for cid, (evs, blk) in meta.items():
@@ -621,11 +625,18 @@ def thread_probe() -> List[Dict[str, Any]]:
     from pyrtma.validators import disable_message_validation
     inside, release = threading.Event(), threading.Event()
     bad: List[Dict[str, Any]] = []
+    trouble: List[str] = []
+    thread_probe.trouble = trouble
 
     def holder():
-        with disable_message_validation():
+        try:
+            with disable_message_validation():
+                inside.set()
+                release.wait(10)
+        except Exception as e:  # noqa: BLE001  the context manager itself raised: an observation (reported as a
+            # correspondence difference by `_threads`), the probe goes on without a block held by the other thread
+            trouble.append(f"disable_message_validation raised {type(e).__name__} in the helper thread")
             inside.set()
-            release.wait(10)
 
     def attempts(who):
         m = cd.MDF_CONNECT_V2()
@@ -656,6 +667,8 @@ def _threads(res: C.Result):
     bad = thread_probe()
     res.extra["thread_probe_assignments"] = 18
     res.evaluations += 18
+    for t in getattr(thread_probe, "trouble", [])[:1]:
+        res.corr_diffs.append({"name": "corr:M4/disable_message_validation", "diff": t, "case": {"thread_probe": {}}})
     for b in bad[:3]:
         res.failures.append(C.Failure(
             clause="validation_in_force_outside_disable_blocks: accepted while only another thread was inside a block",
